@@ -598,11 +598,11 @@ func outcomeErrOK(it *Item, kind string, e string) bool {
 		}
 		return e == errFor(it.N).Error()
 	case OutPanicStr:
-		return strings.Contains(e, panicStrFor(it.N)) && strings.Contains(e, "panic")
+		return strings.Contains(e, panicStrFor(it.N))
 	case OutPanicErr:
-		return strings.Contains(e, fmt.Sprintf("PE%d-harness", it.N)) && strings.Contains(e, "panic")
+		return strings.Contains(e, fmt.Sprintf("PE%d-harness", it.N))
 	case OutPanicNil:
-		return strings.Contains(e, "nil pointer") && strings.Contains(e, "panic")
+		return strings.Contains(e, "nil pointer")
 	}
 	return false
 }
@@ -968,13 +968,13 @@ func oC10(ix *Index) []Violation {
 					out = append(out, v("C10", "cancelled-ran", "Close of job %d returned nil at %d but the job started at %d", n, cl.Ret, j.Enters[0]))
 				}
 			}
-			if len(j.Enters) > 0 && len(j.Exits) > 0 && cl.Call > j.Enters[0] && cl.Ret < j.Exits[0] && cl.RetEv.E != "job is processing, you can't close processing job" {
+			if len(j.Enters) > 0 && len(j.Exits) > 0 && cl.Call > j.Enters[0] && cl.Ret < j.Exits[0] && cl.RetEv.E != "ErrJobProcessing" {
 				out = append(out, v("C10", "close-while-processing", "Close of job %d during its execution [%d,%d] returned %q", n, j.Enters[0], j.Exits[0], cl.RetEv.E))
 			}
 		}
 		for i := range j.Closes {
 			cl := &j.Closes[i]
-			if cl.Returned() && firstNil != nil && cl.Call > firstNil.Ret && cl.RetEv.E != "job is already closed" {
+			if cl.Returned() && firstNil != nil && cl.Call > firstNil.Ret && cl.RetEv.E != "ErrJobAlreadyClosed" {
 				out = append(out, v("C10", "close-twice", "Close of job %d called at %d after an earlier Close returned nil at %d returned %q", n, cl.Call, firstNil.Ret, cl.RetEv.E))
 			}
 		}
